@@ -49,6 +49,9 @@ def gen_ifaces(rng):
         ("OnlyOther", [("M", [("y", "orig.Other")], ["orig.Other"], False)]),
         ("WithModel", [("M", [("t", "orig.T"), ("m", "model.T")], ["model.T", "orig.T"], False)]),
         ("Unnamed", [("M", [(None, "orig.T"), (None, "orig.Other")], ["orig.T"], False)]),
+        # parameter names equal to the qualifiers of the replacement packages: must not capture them in the method body
+        ("Shadow", [("S", [("repa", "orig.T"), ("repb", "orig.Other"), ("model", "orig.A")], ["orig.T", "orig.Other", "error"], False),
+                    ("V", [("model", "orig.T"), ("repa", "orig.Other")], ["orig.A"], True)]),
     ]
     for name, ms in fixed:
         ifaces.append({"name": name, "methods": [{"name": m[0], "params": [list(p) for p in m[1]], "results": list(m[2]), "variadic": m[3]} for m in ms], "embeds": []})
@@ -171,7 +174,9 @@ def eval_case(ctx, case):
     files["sig.templ"] = SIGPROBE
     rt = {MOD + "/orig": {k: {"pkg-path": MOD + "/" + v[0], "type-name": v[1]} for k, v in case["repl"].items()}}
     target = [i["name"] for i in ifaces]
-    base = {"template": "file://sig.templ", "require-template-schema-exists": False, "formatter": "noop", "filename": "sig_{{.InterfaceName}}.txt"}
+    onefile = case["seed"] % 2 == 0   # all interfaces of the package in ONE output file: per-file state must not leak a decision from one mock to the next
+    base = {"template": "file://sig.templ", "require-template-schema-exists": False, "formatter": "noop",
+            "filename": "sig_all.txt" if onefile else "sig_{{.InterfaceName}}.txt"}
     if case["placement"] == "outpkg":
         base.update({"dir": "mocks/svcmocks", "pkgname": "svcmocks"})
     # where the setting is written; `Untouched*` interfaces sit outside its scope when it is written at interface level
@@ -214,7 +219,7 @@ def eval_case(ctx, case):
         outdir = os.path.join(root, "mocks/svcmocks" if case["placement"] == "outpkg" else "svc")
         per = {}
         for nm in target:
-            per[nm] = parse_sig(os.path.join(outdir, "sig_%s.txt" % nm))
+            per[nm] = parse_sig(os.path.join(outdir, "sig_all.txt" if onefile else "sig_%s.txt" % nm))
         results[with_rt] = (per, scoped_all, root)
     tags = ["level=" + case["level"], "placement=" + case["placement"], "repl=" + "+".join(sorted(case["repl"]))]
     repl = {k: (MOD + "/" + v[0], v[1]) for k, v in case["repl"].items()}
@@ -244,7 +249,7 @@ def eval_case(ctx, case):
     # built-in templates on the same configuration must compile (formatter without import repair included)
     _, _, root = results[True]
     for tmpl in ("testify", "matryer"):
-        cfg, _ = config(True, template=tmpl, formatter=case["builtin_formatter"], filename="%s_{{.InterfaceName}}.go" % tmpl)
+        cfg, _ = config(True, template=tmpl, formatter=case["builtin_formatter"], filename=("%s_all.go" % tmpl) if onefile else ("%s_{{.InterfaceName}}.go" % tmpl))
         cfg["force-file-write"] = True
         cfg["structname"] = ("T" if tmpl == "testify" else "Q") + "Mock{{.InterfaceName}}"
         if tmpl == "matryer":
